@@ -199,6 +199,19 @@ func (p *Prog) FuncsOf(pkgpath string) []*ssa.Function {
 	return out
 }
 
+// LibFuncs: the functions of package varlink and of its internal helper packages other than ctxio (platform glue a
+// refactoring may move out of the package: listen, socket activation, the bridge command).
+func (p *Prog) LibFuncs() []*ssa.Function {
+	var out []*ssa.Function
+	for _, f := range p.Funcs {
+		pp := fnPkgPath(f)
+		if pp == pkgVarlink || strings.HasPrefix(pp, pkgVarlink+"/internal/") && pp != pkgCtxio {
+			out = append(out, f)
+		}
+	}
+	return out
+}
+
 func fnPkgPath(f *ssa.Function) string {
 	for f.Parent() != nil {
 		f = f.Parent()
